@@ -449,7 +449,7 @@ KILLS = [
     (_APP, "                if not resp.complete:\n                    responder(req, resp, **params)\n", "                responder(req, resp, **params)\n",
      'responder-only-if-nothing-completed-or-raised'),
     (_APP, "                    raise\n\n                req_succeeded = False\n\n        body: Iterable[bytes] = []", "                    raise\n\n        body: Iterable[bytes] = []",
-     'success-flag-true-iff-nothing-raised'),
+     'inv:for#3:preserve'),
     (_APP, "                if resource:\n                    # Call process_resource middleware methods.\n", "                if True:\n                    # Call process_resource middleware methods.\n",
      'inv:for#2:entry'),
     (_APP, "                    if process_request and not resp.complete:\n", "                    if process_request:\n", 'request-method-only-while-nothing-completed-or-raised'),
@@ -728,4 +728,157 @@ KILLS += [
      "            sync_responder(self, req, resp, **kwargs)\n            sync_action(req, resp, self, kwargs, *action_args, **action_kwargs)\n", '_wrap_with_before#first-step-runs-exactly-once-first'),
     ('falcon/hooks.py', "            await async_responder(self, req, resp, **kwargs)\n            await async_action(req, resp, self, *action_args, **action_kwargs)\n",
      "            await async_action(req, resp, self, *action_args, **action_kwargs)\n            await async_responder(self, req, resp, **kwargs)\n", '_wrap_with_after#first-step-runs-exactly-once-first'),
+]
+
+
+# ---------------------------------------------------------------------------
+# prepare_middleware: the stacks App.__call__ walks are exactly the documented
+# ones.  Components are identified by index; which methods a component has is an
+# uninterpreted predicate of the index.  Spec functions (defining equations
+# assumed at the loop index):
+#   FQ(i) / FS(i) / FD(i) = indices k < i (ascending) with a request / resource /
+#   (request or response) method;  RR(i) = indices k < i (descending) with a response method.
+
+HELP = 'falcon.app_helpers'
+HAS_RSRC = z3.Function('has_rsrc', z3.IntSort(), z3.BoolSort())
+_SEQ = z3.SeqSort(z3.IntSort())
+FQ = z3.Function('FQ', z3.IntSort(), _SEQ)
+FS = z3.Function('FS', z3.IntSort(), _SEQ)
+FD = z3.Function('FD', z3.IntSort(), _SEQ)
+
+
+def _asc_step(F, pred, i):
+    ii = _i(i)
+    return z3.And(F(0) == z3.Empty(_SEQ), F(ii + 1) == z3.If(pred(ii), z3.Concat(F(ii), z3.Unit(ii)), F(ii)))
+
+
+@stubclass
+class _Method:
+    """A bound middleware method, identified by (kind, component index)."""
+
+    def __init__(self, kind, k):
+        self.kind, self.k = kind, k
+        self.__self__ = object()
+
+    def __pyvc_truth__(self):
+        return True
+
+
+@stubclass
+class _Component:
+    def __init__(self, k, hq, hs, hp, suffix=''):
+        self.k = k
+        if hq:
+            setattr(self, 'process_request' + suffix, _Method('req', k))
+        if hs:
+            setattr(self, 'process_resource' + suffix, _Method('rsrc', k))
+        if hp:
+            setattr(self, 'process_response' + suffix, _Method('resp', k))
+
+
+def _unwrap_mw(x):
+    if isinstance(x, tuple):
+        return (x[0] if x[0] is not None else x[1]).k
+    return x.k
+
+
+def _prep_setup(asgi):
+    def setup(reg, ex):
+        import falcon.app_helpers as ah
+
+        key = HELP + ':prepare_middleware'
+        reg.add_model(ah.iscoroutinefunction, lambda I, fn: asgi)
+        reg.add_model(ah._wrap_non_coroutine_unsafe, lambda I, fn: fn)
+        reg.add_model(ah.util.is_python_func, lambda I, fn: True)
+        reg.inline.update(['falcon.util.misc:get_bound_method'])
+
+        def seq_of(x):
+            return x.seq if isinstance(x, SeqList) else z3.Empty(_SEQ)
+
+        def inv(L):
+            i = _i(L['_i_for0'])
+            if CUR['independent']:
+                return And(mk_bool(seq_of(L['request_mw']) == FQ(i)), mk_bool(seq_of(L['response_mw']) == RR(i)), mk_bool(seq_of(L['resource_mw']) == FS(i)))
+            return And(mk_bool(seq_of(L['request_mw']) == FD(i)), mk_bool(seq_of(L['response_mw']) == z3.Empty(_SEQ)), mk_bool(seq_of(L['resource_mw']) == FS(i)))
+
+        def hv(ctx, L):
+            i = L['_i_for0']
+            ctx.assume(mk_bool(z3.And(rr_step(i), _asc_step(FQ, HAS_REQ, i), _asc_step(FS, HAS_RSRC, i),
+                                      _asc_step(FD, lambda k: z3.Or(HAS_REQ(k), HAS_RESP(k)), i))))
+
+        ref = ('ref', lambda k: k, _unwrap_mw)
+        reg.loops[(key, 'for#0')] = LoopSpec(inv=inv, havoc=hv, lists={'request_mw': ref, 'resource_mw': ref, 'response_mw': ref})
+        # tuple(list) of a symbolic list: an immutable snapshot of the same sequence
+        import builtins
+
+        def m_tuple(I, x=()):
+            if isinstance(x, SeqList):
+                return x
+            return tuple(I.iterate(x))
+
+        reg.add_model(builtins.tuple, m_tuple)
+
+    return setup
+
+
+def _prep_harness(asgi):
+    def h(v):
+        independent = bool(v.choose(2, 'independent_middleware'))
+        CUR.update(independent=independent)
+        n = v.int('n_components', 0)
+        if v.concrete:
+            return
+        for F in (FQ, FS, FD, RR):
+            v.assume(mk_bool(F(0) == z3.Empty(_SEQ)))
+
+        def comp(i):
+            hq, hs, hp = mk_bool(HAS_REQ(_i(i))), mk_bool(HAS_RSRC(_i(i))), mk_bool(HAS_RESP(_i(i)))
+            v.assume(Or(hq, hs, hp))  # a component without any method is rejected: harness prepare_rejects_empty
+            return _Component(i, bool(hq), bool(hs), bool(hp), '_async' if asgi and v.choose(2, 'async-suffix?') else '')
+
+        out = v.call(FnSeq(n, comp), independent, asgi)
+        v.check('no-exception', out.exc is None)
+        if out.exc is not None:
+            return
+        rq, rs, rp = out.value
+
+        def sq(x):
+            return x.seq if isinstance(x, SeqList) else z3.Empty(_SEQ)
+
+        nn = _i(n)
+        if independent:
+            v.check('independent-request-stack-is-request-methods-in-order', mk_bool(sq(rq) == FQ(nn)))
+            v.check('independent-response-stack-is-response-methods-reversed', mk_bool(sq(rp) == RR(nn)))
+        else:
+            v.check('dependent-request-stack-pairs-every-component-with-a-request-or-response-method-in-order', mk_bool(sq(rq) == FD(nn)))
+            v.check('dependent-response-stack-is-empty', mk_bool(sq(rp) == z3.Empty(_SEQ)))
+        v.check('resource-stack-is-resource-methods-in-order', mk_bool(sq(rs) == FS(nn)))
+        v.cover('prepared')
+
+    return h
+
+
+for _a in (False, True):
+    harness(PROP, HELP + ':prepare_middleware', name='prepare_middleware[%s]' % ('asgi' if _a else 'wsgi'), setup=_prep_setup(_a))(_prep_harness(_a))
+
+
+@harness(PROP, HELP + ':prepare_middleware', name='prepare_rejects_empty', inline=['falcon.util.misc:get_bound_method'])
+def prepare_rejects_empty(v):
+    """A component with none of the three methods is rejected with TypeError (WSGI)."""
+
+    class Empty:
+        pass
+
+    out = v.call([Empty()], bool(v.choose(2, 'independent_middleware')), False)
+    v.check('component-without-methods-rejected', out.exc is not None and out.exc.isa(TypeError))
+
+
+_HLP = 'falcon/app_helpers.py'
+KILLS += [
+    (_HLP, "                response_mw.insert(0, process_response)  # type: ignore[arg-type]\n", "                response_mw.append(process_response)  # type: ignore[arg-type]\n",
+     'prepare_middleware#inv:for#0:preserve'),
+    (_HLP, "            if process_request or process_response:\n                request_mw.append((process_request, process_response))",
+     "            if process_request:\n                request_mw.append((process_request, process_response))", 'prepare_middleware#inv:for#0:preserve'),
+    (_HLP, "        if process_resource:\n            resource_mw.append(process_resource)", "        if process_resource:\n            resource_mw.insert(0, process_resource)",
+     'prepare_middleware#inv:for#0:preserve'),
 ]
